@@ -340,6 +340,24 @@ def _results_check(w, prop_v, expect, what):
     return res, got
 
 
+def _incomplete_at_end(w, v):
+    """Fault-free execution that ran out of things to do (all processes ended, the documented recovery rounds used up)
+    without a complete submission: the final results the property speaks about never appear."""
+    c = w.obs.cluster or {}
+    if w.data.get("faulty") or not c or c.get("is_complete"):
+        return False
+    if c.get("is_canceled"):
+        return False
+    rec = [x for x in w.vprocs if x.name.startswith("rec")]
+    if not rec:
+        return False
+    crashes = [(x.name, str(x.exc)[:160]) for x in w.vprocs if getattr(x, "exc", None)]
+    nested = (w.data.get("final") or {}).get("crashes") or ()
+    v(w, f"the fault-free run never completed although the recovery try-submit-jobs was run (no final results); crashed processes: {crashes or list(nested)[:3]}",
+      "no-completion")
+    return True
+
+
 class C03(PropOracle):
     """Final results complete and equal to the reference evaluation."""
 
@@ -347,6 +365,8 @@ class C03(PropOracle):
 
     def on_end(self, w, vp, d):
         c = w.obs.cluster or {}
+        if _incomplete_at_end(w, self.v):
+            return
         if not c.get("is_complete") or w.data.get("faulty"):
             return
         r = _results_check(w, self.v, None, "")
@@ -381,6 +401,8 @@ class C04(PropOracle):
     def on_end(self, w, vp, d):
         o = w.obs
         c = o.cluster or {}
+        if _incomplete_at_end(w, self.v):
+            return
         if not c.get("is_complete") or w.data.get("faulty"):
             return
         ref = reference(w.scen["jobs"], w.scen["exit_codes"])
